@@ -1,4 +1,5 @@
 import IV.Lemmas.Rules
+import IV.Lemmas.RulesText
 import IV.Gen.Responses
 /-!
 C12 — every evaluated rule yields exactly one well-formed, accounted outcome.
@@ -841,5 +842,108 @@ example : lookup sNoneT (ofTypes (getResponse (run exEnv [0] exRules)) false [])
 example : Invoked [0] (exRule 5 [0] true (.retOther false)) := ⟨by decide, by decide, by decide⟩
 example : ignored [0] (exRule 4 [1] true .retNone) = false ∧
     missingDeps [0] (exRule 4 [1] true .retNone) = some ⟨[1], []⟩ := by decide
+
+/-! ### the text formatter (HumanReadableFormat.show_description) accounts like the evaluator
+
+Its walk over the rules in the broker after the run (`textRows`, `IV/Model/RulesText.lean`) is tied to the
+per-rule outcomes, so that its "Rule Execution Summary" and the evaluator's lists cannot disagree. -/
+
+/-- the rows the text formatter walks are exactly — in run order — the rules whose outcome stored a typed value,
+each under the type of its one outcome; rules with an exception or no trace have no row -/
+theorem text_rows_exact (env : Env) (seed : List Comp) (rules : List Rule) (h : Fresh seed rules) :
+    textRows (run env seed rules).inst = (finals env seed rules).filterMap rowOf := by
+  rw [run_eq env seed rules h, applyAll_rows _ _ (finals_wf env seed rules)]
+  simp [St.init, textRows_seed]
+
+set_option maxRecDepth 100000 in
+example : (textRows (run exEnv [0] exRules).inst).map (fun p => (p.1, String.ofList p.2)) =
+    [(2, "rule"), (3, "pass"), (4, "skip"), (9, "none"), (10, "skip")] := by decide
+
+/-- the summary count of a type listed under a heading equals the number of entries the evaluator lists there -/
+theorem text_count_entries (env : Env) (seed : List Comp) (rules : List Rule) (h : Fresh seed rules) (t : Str)
+    (h1 : t ≠ sSkip) (h2 : t ≠ sMetadata) (h3 : t ≠ sMetadataKey) :
+    textCount t (run env seed rules).inst = (getList t (run env seed rules).results).length := by
+  unfold textCount
+  rw [text_rows_exact env seed rules h, counted_once env seed rules h t]
+  exact rows_count_entries t h1 h2 h3 _ (finals_wf env seed rules)
+
+set_option maxRecDepth 100000 in
+example : textCount sRule (run exEnv [0] exRules).inst = 1 ∧ sRule ≠ sSkip ∧ sRule ≠ sMetadata ∧ sRule ≠ sMetadataKey := by
+  decide
+
+/-- "Missing Deps" of the summary equals the number of skip entries of the evaluator -/
+theorem text_count_skips (env : Env) (seed : List Comp) (rules : List Rule) (h : Fresh seed rules) :
+    textCount sSkip (run env seed rules).inst = (run env seed rules).skips.length := by
+  unfold textCount
+  rw [text_rows_exact env seed rules h, skips_exact env seed rules h]
+  exact rows_count_skips _ (finals_wf env seed rules)
+
+set_option maxRecDepth 100000 in
+example : textCount sSkip (run exEnv [0] exRules).inst = 2 := by decide
+
+/-- no rule is walked (hence counted or printed) twice by the text formatter -/
+theorem text_each_rule_once (env : Env) (seed : List Comp) (rules : List Rule) (h : Fresh seed rules) :
+    ((textRows (run env seed rules).inst).map (·.1)).Nodup := by
+  rw [text_rows_exact env seed rules h]
+  exact (rows_ids_sublist _).nodup (finals_nodup env seed rules h)
+
+example : Fresh [0] exRules := ⟨by decide, by decide⟩
+
+/-- what is printed under a label is exactly the walked rules the options select, and printing succeeds only if
+every selected rule has a labelled type -/
+theorem text_printed_selected (missing : Bool) (showRules : List Str) (inst : List (Comp × Option Resp))
+    (rows : List (Comp × Str)) (h : textPrinted missing showRules inst = some rows) (p : Comp × Str) :
+    p ∈ rows ↔ (p ∈ textRows inst ∧ textSelected missing showRules p.2 = true ∧ p.2 ∈ textLabels) := by
+  unfold textPrinted at h
+  simp only at h
+  split at h
+  · rename_i hall
+    cases h
+    simp only [List.mem_filter]
+    constructor
+    · intro hp
+      refine ⟨hp.1, hp.2, ?_⟩
+      have := List.all_eq_true.mp hall p (List.mem_filter.mpr hp)
+      simpa using this
+    · intro hp; exact ⟨hp.1, hp.2.1⟩
+  · cases h
+
+set_option maxRecDepth 100000 in
+example : (textPrinted true [] (run exEnv [0] exRules).inst).map (·.map (·.1)) = some [2, 3, 4, 10] := by decide
+
+/-! ### evaluation on a thread pool (known finding parallel-observer-race) -/
+
+/-- FULL statement (false of the current code): whatever observer calls fail on the pool, every rule's outcome is
+accounted -/
+def PooledObserverAccounts : Prop :=
+  ∀ (env : Env) (seed : List Comp) (xs : List (Rule × Bool)), Fresh seed (xs.map (·.1)) →
+    ∀ r f, (r, f) ∈ finals env seed (xs.map (·.1)) → tally (runPooled env seed xs) r.id = f.tally
+
+/-- … it holds when no observer call fails: the pooled run then is the serial run over the same order -/
+theorem pooled_observer_accounts_partial (env : Env) (seed : List Comp) (xs : List (Rule × Bool))
+    (hok : ∀ x ∈ xs, x.2 = true) (h : Fresh seed (xs.map (·.1)))
+    (r : Rule) (f : Final) (hmem : (r, f) ∈ finals env seed (xs.map (·.1))) :
+    tally (runPooled env seed xs) r.id = f.tally := by
+  have : runPooled env seed xs = run env seed (xs.map (·.1)) := foldl_stepPooled_ok env xs _ hok
+  rw [this]
+  exact outcome_exclusive env seed (xs.map (·.1)) h r f hmem
+
+example : ∀ x ∈ exRules.map (fun r => (r, true)), x.2 = true := by decide
+
+def pooledWitnessRule : Rule := exRule 2 [0] true (.ret c_make_fail (.str "K".toList) [("a".toList, .int 1)])
+
+set_option maxRecDepth 100000 in
+/-- the witness: one rule returning a fail response whose observer call fails on the pool; the response is in the
+broker and nowhere in the evaluator's accounting, while its one outcome is an entry under "rule" -/
+theorem pooled_observer_accounts_witness : ¬ PooledObserverAccounts := by
+  intro h
+  have h2 := h exEnv [0] [(pooledWitnessRule, false)] ⟨by decide, by decide⟩ pooledWitnessRule
+    (classify exEnv [0] pooledWitnessRule) (by simp [finals])
+  revert h2
+  decide
+
+set_option maxRecDepth 100000 in
+example : (tally (runPooled exEnv [0] [(pooledWitnessRule, false)]) 2).results = 0 ∧
+    (classify exEnv [0] pooledWitnessRule).tally.results = 1 := by decide
 
 end IV.Rules
